@@ -155,6 +155,7 @@ theorem status_line_first (c : ServeCfg) (st : StatFn) (rq : Parsed) (ps : List 
       | notFound m => simp only [hh, Option.some.injEq] at h; exact ⟨lit "51", m, [], [], by rw [← h]; simp, Or.inl rfl⟩
       | crash => simp [hh] at h
       | document e d => simp only [hh, Option.some.injEq] at h; exact ⟨lit "20", geminiAdjust e.mimetype, [], [.bytes d], by rw [← h]; simp, Or.inr (Or.inl rfl)⟩
+      | page e t => simp only [hh, Option.some.injEq] at h; exact ⟨lit "20", geminiAdjust e.mimetype, t, [], by rw [← h], Or.inr (Or.inl rfl)⟩
       | menu self es =>
         simp only [hh] at h
         obtain ⟨r, _, hr⟩ := Option.map_eq_some_iff.mp h
@@ -163,6 +164,7 @@ theorem status_line_first (c : ServeCfg) (st : StatFn) (rq : Parsed) (ps : List 
       | notFound m => simp only [hh, Option.some.injEq] at h; exact ⟨lit "4", m, [], [], by rw [← h]; simp, Or.inr (Or.inr (Or.inl rfl))⟩
       | crash => simp [hh] at h
       | document e d => simp only [hh, Option.some.injEq] at h; exact ⟨lit "2", geminiAdjust e.mimetype, [], [.bytes d], by rw [← h]; simp, Or.inr (Or.inr (Or.inr rfl))⟩
+      | page e t => simp only [hh, Option.some.injEq] at h; exact ⟨lit "2", geminiAdjust e.mimetype, t, [], by rw [← h], Or.inr (Or.inr (Or.inr rfl))⟩
       | menu self es =>
         simp only [hh] at h
         obtain ⟨r, _, hr⟩ := Option.map_eq_some_iff.mp h
